@@ -123,7 +123,36 @@ def make_jacobian_case(rng, tier):
     return {'prog': base['prog'], 'N': N, 'rec': rand_coeffs(rng, (N,), -programs.BOX, programs.BOX), 'jcurve': c, 'jacdir': True}
 
 
+def eig_mixed_spectrum_fails(case):
+    """UTPM.eig on several directions whose base matrices have DIFFERENT kinds of spectrum (real / complex-conjugate pairs, in any
+    order): direction p of the joint result has the values of direction p evaluated alone"""
+    x = np.array(case['x'])
+    with np.errstate(all='ignore'):
+        l, Q = UTPM.eig(UTPM(x.copy()))
+        for p in range(x.shape[1]):
+            l1, Q1 = UTPM.eig(UTPM(x[:, p:p + 1].copy()))
+            for nm, a, b in (('eigenvalues', l.data[:, p], l1.data[:, 0]), ('eigenvectors', Q.data[:, p], Q1.data[:, 0])):
+                if a.shape != b.shape or not np.allclose(np.asarray(a, dtype=complex), np.asarray(b, dtype=complex), rtol=1e-12, atol=1e-13):
+                    return 'eig-mixed-spectrum: %s of direction %d depend on the other directions (spectra: %s)' % (nm, p, case['kinds'])
+    return None
+
+
+def eig_mixed_case(rng, kinds, D):
+    n = 3
+    x = rand_coeffs(rng, (D, len(kinds), n, n), -1, 1)
+    for p, k in enumerate(kinds):
+        if k == 'real':
+            a = rand_coeffs(rng, (n, n), -1, 1)
+            x[0, p] = a + a.T + np.diag([-3.0, 0.0, 3.0])
+        else:
+            c_, s_ = 0.5, rng.choice([1.0, 2.0])
+            x[0, p] = np.array([[c_, -s_, 0.0], [s_, c_, 0.0], [0.25, 0.5, 3.0]])       # a rotation block: a complex-conjugate pair
+    return {'eigmixed': True, 'x': x, 'kinds': list(kinds)}
+
+
 def replay_case(ctx, case):
+    if case.get('eigmixed'):
+        return eig_mixed_spectrum_fails(case)
     if case.get('poisoned'):
         return poisoned_direction_fails(case)
     if case.get('jacdir'):
@@ -148,6 +177,14 @@ def run(ctx):
             ctx.evaluations += 1
             ctx.count('poisoned-direction-systematic')
             f = poisoned_direction_fails(case)
+            if f:
+                ctx.report(case, 'failure', f)
+    for kinds in (('real', 'complex'), ('complex', 'real'), ('real', 'real', 'complex'), ('real', 'real'), ('complex', 'complex')):
+        for D_ in (1, 2):
+            case = eig_mixed_case(ctx.rng, kinds, D_)
+            ctx.evaluations += 1
+            ctx.count('eig-mixed-spectrum')
+            f = eig_mixed_spectrum_fails(case)
             if f:
                 ctx.report(case, 'failure', f)
     n = len(names) * (8 if ctx.tier == 'quick' else 100)
